@@ -100,7 +100,13 @@ func runC01(e *env) {
 		"one evaluation = one (module, generator) pair whose generation succeeded; non-trivial = output declares at least 3 functions"
 	e.m.Extra = map[string]interface{}{"mismatch_means": "property",
 		"assumptions": []string{"github.com/lib/pq is replaced by a stand-in with the same exported API subset (the real module is not available offline)"}}
-	specs := corpusGoGen()
+	specs := append(corpusGoGen(), repoFixtures("repo-testsource-defs")...)
+	// the SQL models of the repository use structs with union fields declared in another package: gounions emits their
+	// methods in the analysed package (recorded finding); sqlcrud and randdata are still checked on it
+	for _, m := range repoFixtures("repo-sql-models") {
+		m.Class = "methods-on-imported-types"
+		specs = append(specs, m)
+	}
 	n := 10
 	if e.thorough() {
 		n = 150
@@ -146,6 +152,9 @@ func runC01(e *env) {
 		}
 		var choices, receivers, declared []string
 		caseClass := shadowClass(o)
+		if specs[i].Class != "" {
+			caseClass = "gounions:" + specs[i].Class
+		}
 		for _, tgt := range []string{"gounions", "randdata", "sqlcrud", "sqlcrud_sets"} {
 			g := o.Gen[tgt]
 			if g.Outcome != "ok" {
@@ -218,6 +227,9 @@ func runC01(e *env) {
 		}
 		if len(results[i]) > 0 {
 			cls := classifyCompileError(j.tgt, results[i][0])
+			if j.spec.Class != "" && j.tgt == "gounions" {
+				cls = j.tgt + ":" + j.spec.Class
+			}
 			if shadow[j.spec.Name] && strings.HasSuffix(cls, ":other") {
 				cls = j.tgt + ":embedded-field-shadowed"
 			}
